@@ -65,3 +65,8 @@ Definition restoreident_src : list dstmt :=
    DIf "nil(r.Resolver)" true [DIf "eq(n.Path,"""")" true [DGuard "true(avoid[parentName+"".""+parentField])" false (DPanic); DIf "eq(n.Path,r.Path)" true [DIf "eq(r.packageNames[n.Path],""."")" false [DGuard "eq("""","""")" false (DVal "nil"); DRet (DVal "selector:""""")]; DGuard "eq(r.packageNames[n.Path],"""")" false (DVal "nil"); DRet (DVal "selector:r.packageNames[n.Path]")]; DIf "eq("""",""."")" false [DGuard "eq("""","""")" false (DVal "nil"); DRet (DVal "selector:""""")]; DGuard "eq("""","""")" false (DVal "nil"); DRet (DVal "selector:""""")]];
    DGuard "eq("""","""")" false (DVal "nil");
    DRet (DVal "selector:""""")].
+
+Definition parsefile_src : list dstmt :=
+  [DIf "nil(parser.ParseFile(d.Fset,filename,src,mode|parser.ParseComments).1)" true [DGuard "nil(parser.ParseFile(d.Fset,filename,src,mode|parser.ParseComments).0)" false (DVal "nil , parser.ParseFile(d.Fset,filename,src,mode|parser.ParseComments).1"); DGuard "true(parser.ParseFile(d.Fset,filename,src,mode|parser.ParseComments).0.Pos().IsValid())" true (DVal "nil , parser.ParseFile(d.Fset,filename,src,mode|parser.ParseComments).1")];
+   DGuard "fails(d.DecorateFile(parser.ParseFile(d.Fset,filename,src,mode|parser.ParseComments).0))" false DErr;
+   DRet (DVal "d.DecorateFile(parser.ParseFile(d.Fset,filename,src,mode|parser.ParseComments).0) , parser.ParseFile(d.Fset,filename,src,mode|parser.ParseComments).1")].
